@@ -1,7 +1,7 @@
 package dragonboat
 
 //vcheck:tags noasm
-//vcheck:bounds C08 node: snapshot files written without compression or with Snappy stream compression (golang/snappy's pure-Go encoder/decoder, build tag noasm, stands in for the amd64 assembly of the production build); one replica with a concurrent in-memory or an on-disk state machine model behind the real rsm.StateMachine, the real snapshotter / SSEnv / snapshot writer over the real lni/vfs in-memory FS, the real logdb.LogReader; 8..10 applied entries, then one real node.doSave (periodic, or user requested with a symbolic compaction overhead / compaction index override, or exported) during which 0..3 more entries are applied (concurrent state machines keep applying while a snapshot is written), then the real node.removeLog; CompactionOverhead 2
+//vcheck:bounds C08 node: snapshot files written without compression or with Snappy stream compression (golang/snappy's pure-Go encoder/decoder, build tag noasm, stands in for the amd64 assembly of the production build); one replica with a concurrent in-memory or an on-disk state machine model behind the real rsm.StateMachine, the real snapshotter / SSEnv / snapshot writer over the real lni/vfs in-memory FS, the real logdb.LogReader; 8..10 applied entries, then one real node.save -> doSave (periodic, or user requested with a symbolic compaction overhead / compaction index override, or exported) during which 0..3 more entries are applied (concurrent state machines keep applying while a snapshot is written), then the real node.removeLog; CompactionOverhead 2
 //vcheck:stub C08 node: log store = harness ILogDB holding entry terms, the snapshot record and the RemoveEntriesTo watermark; user state machine = counter of applied entries whose snapshot is the count captured by PrepareSnapshot
 
 import (
@@ -193,10 +193,13 @@ func VHarness_C08_NodeSaveCompaction() {
 		req = rsm.SSRequest{Type: rsm.Exported, Path: "/export"}
 		vReach("exported")
 	}
-	idx, err := n.doSave(req)
+	// the snapshot worker's entry point (node.save -> doSave -> compactLog)
+	err = n.save(rsm.Task{Save: true, SSRequest: req})
 	vAssert(err == nil, "save-ok")
 	vAssert(usm.during == nil, "entries-applied-during-save")
-	vAssert(idx == applied, "snapshot-index-is-the-index-captured-at-prepare")
+	if req.Type != rsm.Exported {
+		vAssert(n.ss.getIndex() == applied, "snapshot-index-is-the-index-captured-at-prepare")
+	}
 	vAssert(usm.onDisk || usm.savedAt == applied, "snapshot-data-is-the-state-at-its-index")
 	if req.Type == rsm.Exported {
 		vAssert(store.ss.Index == 0 && !n.ss.hasCompactLogTo(), "exported-snapshot-neither-recorded-nor-compacting")
